@@ -111,12 +111,33 @@ fn complete(req: &Value) -> Value {
     for o in req["offsets"].as_array().unwrap() {
         let fpos = FilePos::new(file, (o.as_u64().unwrap() as u32).into());
         match a.completions(fpos, None) {
-            Ok(Some(items)) => out.push(Value::Array(items.iter().map(|i| json!(i.label.as_str())).collect())),
+            Ok(Some(items)) => out.push(Value::Array(
+                items
+                    .iter()
+                    .map(|i| {
+                        if req["ranges"].as_bool().unwrap_or(false) {
+                            json!([i.label.as_str(), u32::from(i.source_range.start()), u32::from(i.source_range.end()), i.replace.as_str()])
+                        } else {
+                            json!(i.label.as_str())
+                        }
+                    })
+                    .collect(),
+            )),
             Ok(None) => out.push(Value::Null),
             Err(_) => out.push(json!("<cancelled>")),
         }
     }
     json!({"complete": out})
+}
+
+fn diag(req: &Value) -> Value {
+    let text = req["text"].as_str().unwrap();
+    let (host, file) = AnalysisHost::new_single_file(text);
+    let a = host.snapshot();
+    match a.diagnostics(file) {
+        Ok(ds) => Value::Array(ds.iter().map(|d| json!([u32::from(d.range.start()), u32::from(d.range.end()), format!("{:?}", d.kind)])).collect()),
+        Err(_) => json!("<cancelled>"),
+    }
 }
 
 fn main() {
@@ -137,6 +158,7 @@ fn main() {
             "hover" => hover(&req),
             "goto" => goto(&req),
             "complete" => complete(&req),
+            "diag" => diag(&req),
             _ => json!({"error": "unknown command"}),
         });
         let out = match res {
